@@ -431,6 +431,14 @@ def explainConflicts (G : Grammar) (fuel : Nat) (A k : Nat) : Option (List (Nat 
   | ps => (laSets G fuel A k).map fun sets =>
       explainLoop sets (ps.flatMap fun i => ps.map fun j => (i, j)) []
 
+/-- Per-instance check that the faithful seeded iteration ends in the reference least fixpoint
+    (slot by slot, as sets). -/
+def seededAgrees (G : Grammar) (k fuel : Nat) : Option Bool :=
+  (firstCode G fuel k).bind fun V =>
+    (firstK_lfp G k fuel).map fun E =>
+      listSame V.prods (G.prods.map fun p => firstSeqRef k (envGet E) p.rhs) && envSame V.nts E
+        && V.nts.map (·.1) == E.map (·.1)
+
 /-! ## reference decision (oracle for C05): strong-LL(k) evaluated on the reference sets -/
 
 /-- lookahead sets of the productions of `A` with the textbook ⊕ₖ over given FIRST/FOLLOW environments -/
